@@ -11,7 +11,7 @@ def find_fn(text, header_re):
     if not m:
         return None
     i = m.start()
-    j = text.index('{', m.end() - 1) if text[m.end() - 1] != '{' else m.end() - 1
+    j = text.index('{', i)
     depth = 0
     k = j
     while k < len(text):
@@ -75,6 +75,46 @@ def rewrite_mul(src, log):
         if n:
             log.append((name, n))
         s = s2
+    return s
+
+def rewrite_square(src, log):
+    """U256::square: the rules of rewrite_mul plus
+    R12 compound shift assignment `X <<= n;` -> `X = X << n;`
+    R13 limb-view alias: `let a = self.as_mut();` where `a` is only read (`a[i]`, `a.iter()`) and finally overwritten by
+        `a.copy_from_slice(&X);` (X a [u64; 4])  ->  reads of `self.0.0`, final `self.0.0 = X;`
+        (U256::as_mut is `&mut self.0.0`; copy_from_slice on equal static lengths is assignment)
+    R4 plain writes `r[k] = EXPR;` -> `let w_ = EXPR'; r.set(k, w_);`"""
+    s = src
+    m = re.search(r'let (\w+) = self\.as_mut\(\);\s*', s)
+    if m:
+        a = m.group(1)
+        rest = s[:m.start()] + s[m.end():]
+        uses = re.findall(r'\b%s\b(.{0,20})' % a, rest)
+        ok = all(u.startswith('[') or u.startswith('.iter()') or u.startswith('.copy_from_slice(&') for u in uses)
+        ncopy = len(re.findall(r'\b%s\.copy_from_slice\(&' % a, rest))
+        if not ok or ncopy != 1:
+            raise ValueError('R13 not applicable')
+        rest = re.sub(r'\b%s\.copy_from_slice\(&([\w.]+)\);' % a, r'self.0.0 = \1;', rest)
+        rest = re.sub(r'\b%s\[' % a, 'self.0.0[', rest)
+        rest = re.sub(r'\b%s\.iter\(\)' % a, 'self.0.0.iter()', rest)
+        s = rest
+        log.append(('R13', 1))
+    s, n = re.subn(r'^(\s*)([\w.\[\]]+) <<= (\d+);', r'\1\2 = \2 << \3;', s, flags=re.M)
+    if n:
+        log.append(('R12', n))
+    s, n = re.subn(r'for \((\w+), (\w+)\) in self\.0\.0\.iter\(\)\.enumerate\(\)\.take\(4\) \{', r'for \1 in 0..4usize\n{\nlet \2 = &self.0.0[\1];', s)
+    if n:
+        log.append(('R1', n))
+    s, n = re.subn(r'for (\w+) in \((\w+) \+ 1\)\.\.(\d+) \{', r'for \1 in (\2 + 1)..\3usize\n{', s)
+    if n:
+        log.append(('R1', n))
+    def repl_plain(m):
+        log.append(('R4-write-plain', m.group(1)))
+        return 'let w_ = %s;\nr.set(%s, w_);' % (m.group(2), m.group(1))
+    s = re.sub(r'\br\[([^\]=]+)\] =\s*([^{};][^;{}]*);', repl_plain, s)
+    s = re.sub(r'^\s*pub fn', 'pub fn', s, count=1)
+    s = rewrite_mul(s, log)
+    s = re.sub(r'^(pub fn [^{]*?)\s*\{', r'\1\n{', s, count=1, flags=re.S)
     return s
 
 def rewrite_small(src, log):
@@ -145,6 +185,37 @@ def rewrite_sop(src, log, consts=None):
         ('R3', r'U256::from\(\[(\w+), (\w+), (\w+), (\w+)\]\)', r'U256(B256([\1, \2, \3, \4]))'),
         ('R1', r'for _ in 0\.\.(\w+) \{', r'for _i in 0..\1\n{'),
         ('R1', r'for (\w+) in (\w+)\.\.(\w+)\n\{', r'for \1 in \2..\3\n{'),
+    ]
+    for name, pat, rep in rules:
+        s2, n = re.subn(pat, rep, s)
+        if n:
+            log.append((name, n))
+        s = s2
+    s = re.sub(r'^(pub fn [^{]*?)\s*\{', r'\1\n{', s, count=1, flags=re.S)
+    return s
+
+def rewrite_fp(src, log):
+    """small functions of u256.rs / the field_impl! expansion: R9 comparisons, R5 constants, `mut` parameters, brace placement"""
+    s = src
+    s = re.sub(r'^\s*#\[inline\]\s*', '', s)
+    s = re.sub(r'^\s*pub(\(crate\))? fn', 'pub fn', s, count=1)
+    s = re.sub(r'^\s*fn ', 'pub fn ', s, count=1)
+    # `mut` by-value parameter -> immutable parameter + shadowing `let mut`
+    m = re.match(r'pub fn (\w+)\(mut (\w+): ([^,)]+)', s)
+    if m:
+        s = s.replace('(mut %s: %s' % (m.group(2), m.group(3)), '(%s: %s' % (m.group(2), m.group(3)), 1)
+        s = re.sub(r'\{', '{\nlet mut %s = %s;' % (m.group(2), m.group(2)), s, count=1)
+        log.append(('R11-param', m.group(2)))
+    rules = [
+        ('R9', r'\b([\w.]+\.0) >= ([\w.]+\.0)\b', r'\1.ge_(&\2)'),
+        ('R9', r'\b([\w.]+\.0) < ([\w.]+\.0)\b', r'\1.lt_(&\2)'),
+        ('R9', r'\bif (\w+) < \*(FQ|FR)\b', r'if \1.0.lt_(&U256(B256(\2_C)).0)'),
+        ('R5', r'&(FQ|FR)_SQUARED\b', r'&U256(B256(\1_SQUARED_C))'),
+        ('R5', r'\*(FQ|FR)_INV\b', r'\1_INV_C'),
+        ('R5', r'\*(FQ|FR)_ONE\b', r'U256(B256(\1_ONE_C))'),
+        ('R5', r'&(FQ|FR)\b(?!_)', r'&U256(B256(\1_C))'),
+        ('R5', r'&U256::one\(\)', r'&U256(B256([1, 0, 0, 0]))'),
+        ('R5', r'\bU256::zero\(\)', r'U256(B256([0, 0, 0, 0]))'),
     ]
     for name, pat, rep in rules:
         s2, n = re.subn(pat, rep, s)
